@@ -9,24 +9,23 @@ Lemma card_nonneg e m : card e m -> 0 <= m.
 Proof. induction 1; lia. Qed.
 
 (* every execution returns a number of rows inside the declared size interval *)
-Theorem size_sound e : forall m, sizes_ok e = true -> join_ok e = true -> reduce_ok e = true ->
+Theorem size_sound e : forall m, sizes_ok e = true -> join_ok e = true ->
   card e m -> fst (size_of (skeleton e)) <= m <= snd (size_of (skeleton e)).
 Proof.
-  induction e as [s|l o i IH|g i IH|k ul ur l IHl r IHr|op all l IHl r IHr]; intros m Hs Hj Hr Hc;
-    cbn [skeleton size_of sizes_ok join_ok reduce_ok fst snd] in *.
+  induction e as [s|l o i IH|g i IH|k ul ur l IHl r IHr|op all l IHl r IHr]; intros m Hs Hj Hc;
+    cbn [skeleton size_of sizes_ok join_ok fst snd] in *.
   - inversion Hc; subst. lia.
   - inversion Hc as [|? ? ? n ? Hi Hm0 Hm Hl| | | |]; subst.
     apply andb_true_iff in Hs as [Hs Hl']. apply andb_true_iff in Hs as [Hs Ho].
-    specialize (IH n Hs Hj Hr Hi). pose proof (card_nonneg _ _ Hi) as Hn.
+    specialize (IH n Hs Hj Hi). pose proof (card_nonneg _ _ Hi) as Hn.
     destruct o as [x|]; destruct l as [y|]; cbn [fst snd]; try (specialize (Hl y eq_refl)); lia.
-  - apply andb_true_iff in Hr as [Hg Hr].
-    inversion Hc as [| |? n ? Hi Hm|? n Hi| |]; subst.
-    + specialize (IH n Hs Hj Hr Hi). cbn [fst snd]. lia.
-    + specialize (IH n Hs Hj Hr Hi). cbn [fst snd]. cbn in Hg. lia.
-  - apply andb_true_iff in Hs as [Hsl Hsr]. apply andb_true_iff in Hr as [Hrl Hrr].
+  - inversion Hc as [| |? n ? Hi Hm|? n Hi| |]; subst.
+    + specialize (IH n Hs Hj Hi). cbn [fst snd]. lia.
+    + specialize (IH n Hs Hj Hi). cbn [fst snd]. lia.
+  - apply andb_true_iff in Hs as [Hsl Hsr].
     apply andb_true_iff in Hj as [Hj Hjr]. apply andb_true_iff in Hj as [Hk Hjl].
     inversion Hc as [| | | |? ? ? ? ? a b ? Ha Hb Hm0 Hmx (p & x & y & Hx & Hy & Hp & Hur & Hul & Hm)|]; subst.
-    specialize (IHl a Hsl Hjl Hrl Ha). specialize (IHr b Hsr Hjr Hrr Hb). cbn [fst snd].
+    specialize (IHl a Hsl Hjl Ha). specialize (IHr b Hsr Hjr Hb). cbn [fst snd].
     pose proof (card_nonneg _ _ Ha) as Ha0. pose proof (card_nonneg _ _ Hb) as Hb0.
     set (A := snd (size_of (skeleton l))) in *. set (B := snd (size_of (skeleton r))) in *.
     split; [lia|].
@@ -34,31 +33,35 @@ Proof.
     + (* a unique flag: bound max(A, B) *)
       destruct k; cbn in Hk; destruct ul, ur; cbn in *; try discriminate;
         repeat match goal with H : true = true -> _ |- _ => specialize (H eq_refl) end; try lia.
-    + apply orb_false_iff in Eu as [-> ->]. unfold sat_mul. cbn in Hk.
+    + apply orb_false_iff in Eu as [-> ->]. unfold sat_mul, sat_add.
       assert (HAB : a * b <= A * B) by nia.
-      destruct k; cbn in Hk.
+      assert (Hpp : p <= (a - x) * b) by nia.
+      assert (Hpq : p <= a * (b - y)) by nia.
+      destruct k.
       * nia.
-      * assert (1 <= B) by lia. assert ((a - x) * (b - y) + x <= A * B) by nia. lia.
-      * assert (1 <= A) by lia. assert ((a - x) * (b - y) + y <= A * B) by nia. lia.
-      * assert (2 <= A /\ 2 <= B) as [HA2 HB2] by lia.
-        assert ((a - x) * (b - y) + x + y <= A * B).
-        { destruct (Z.eq_dec x a) as [->|Hxa]; [nia|]. destruct (Z.eq_dec y b) as [->|Hyb]; [nia|]. nia. }
+      * (* left rows without a match are preserved: (a - x) b + x <= max (a b) a *)
+        destruct (Z.eq_dec b 0) as [->|Hb1]; [nia|]. assert ((a - x) * b + x <= a * b) by nia. lia.
+      * destruct (Z.eq_dec a 0) as [->|Ha1]; [nia|]. assert (a * (b - y) + y <= a * b) by nia. lia.
+      * (* bilinear in (x, y): the largest value is at a corner of the box *)
+        assert ((a - x) * (b - y) + x + y <= a * b \/ (a - x) * (b - y) + x + y <= a + b).
+        { destruct (Z.eq_dec x a) as [->|Hxa]; [right; nia|]. destruct (Z.eq_dec y b) as [->|Hyb]; [right; nia|].
+          destruct (Z_le_gt_dec (a + b) (a * b)); [left|right]; nia. }
         lia.
       * nia.
-  - apply andb_true_iff in Hs as [Hsl Hsr]. apply andb_true_iff in Hr as [Hrl Hrr]. apply andb_true_iff in Hj as [Hjl Hjr].
+  - apply andb_true_iff in Hs as [Hsl Hsr]. apply andb_true_iff in Hj as [Hjl Hjr].
     inversion Hc as [| | | | |? ? ? ? a b ? Ha Hb Hm0 Hmx Hop]; subst.
-    specialize (IHl a Hsl Hjl Hrl Ha). specialize (IHr b Hsr Hjr Hrr Hb).
+    specialize (IHl a Hsl Hjl Ha). specialize (IHr b Hsr Hjr Hb).
     destruct op; cbn [size_of fst snd]; unfold sat_add; lia.
 Qed.
 
-(* Join::size is not sound for an outer join whose key is flagged unique on the preserved... the
-   witness of the design: 5 rows with a unique key LEFT-joined... here RIGHT OUTER of a 20-row table
-   with a unique key and a 1000-row table (the pinned test expects int[0 1000]; 1019 rows are possible) *)
+(* Join::size is not sound for an outer join whose key is flagged unique on a preserved side: the
+   pinned test test_build_join_with_unique_constraint expects int[0 1000] for a FULL / RIGHT OUTER join
+   of a 1000-row table with a 20-row table carrying the unique key; 1019 rows are possible *)
 Theorem join_size_outer_refuted : exists e m,
-  sizes_ok e = true /\ reduce_ok e = true /\ card e m /\ snd (size_of (skeleton e)) < m.
+  sizes_ok e = true /\ card e m /\ snd (size_of (skeleton e)) < m.
 Proof.
   exists (EJoin JFull true false (ETable (0, 5)) (ETable (0, 2))), 6.
-  split; [reflexivity|]. split; [reflexivity|]. split; [|vm_compute; reflexivity].
+  split; [reflexivity|]. split; [|vm_compute; reflexivity].
   apply (CJoin JFull true false (ETable (0, 5)) (ETable (0, 2)) 5 2 6).
   - constructor; cbn; lia.
   - constructor; cbn; lia.
@@ -67,3 +70,15 @@ Proof.
   - (* the two right rows match the same left row: 2 pairs, 4 left rows without a match *)
     exists 2, 4, 0. repeat split; try lia; intros; try discriminate; lia.
 Qed.
+
+Lemma no_flags_join_ok e : no_flags e = true -> join_ok e = true.
+Proof.
+  induction e as [s|l o i IH|g i IH|k ul ur l IHl r IHr|op all l IHl r IHr]; cbn [no_flags join_ok]; intros H; auto.
+  - apply andb_true_iff in H as [H Hr]. apply andb_true_iff in H as [Hu Hl].
+    rewrite (IHl Hl), (IHr Hr). apply negb_true_iff, orb_false_iff in Hu as [-> ->]. destruct k; reflexivity.
+  - apply andb_true_iff in H as [Hl Hr]. rewrite (IHl Hl), (IHr Hr). reflexivity.
+Qed.
+
+Theorem size_sound_no_flags e m : sizes_ok e = true -> no_flags e = true ->
+  card e m -> fst (size_of (skeleton e)) <= m <= snd (size_of (skeleton e)).
+Proof. intros Hs Hn. apply size_sound; [exact Hs|apply no_flags_join_ok; exact Hn]. Qed.
